@@ -248,3 +248,16 @@ fn get_metrics(status: Option<TransformStatus>, file: &str) -> Option<Metrics> {
     }
     None
 }
+
+#[cfg(datadog_dd_native_iast_rewriter_js_verif)]
+pub fn verif_to_config<'de, D: serde::Deserializer<'de>>(raw: D) -> Config {
+    // same fallback as Rewriter::new: a config that does not deserialise falls back to the default one
+    RewriterConfig::deserialize(raw)
+        .unwrap_or(RewriterConfig::default())
+        .to_config()
+}
+
+#[cfg(datadog_dd_native_iast_rewriter_js_verif)]
+pub fn verif_get_metrics(status: Option<TransformStatus>, file: &str) -> Option<Metrics> {
+    get_metrics(status, file)
+}
